@@ -177,3 +177,16 @@ def deref(path, v, depth=0):
             return v
         return deref(path, c, depth + 1)
     return tuple(deref(path, x, depth + 1) if isinstance(x, tuple) else x for x in v)
+
+
+def atoms(path):
+    """branch decisions with negations stripped: [(term, truth, event)]"""
+    out = []
+    for e in path.events:
+        if e.kind == "branch":
+            t, v = e.d
+            while isinstance(t, tuple) and t and t[0] == "not":
+                t = t[1]
+                v = not v
+            out.append((t, v, e))
+    return out
